@@ -676,3 +676,185 @@ class TargetLinkDeltaView(Kernel):
 
 
 KERNELS += [TargetLinkDeltaView]
+
+
+# ------------------------------------------------------------------ target_link.cpp: the binds used on a retarget
+#
+# A from-reference alternative re-points its consumers with bind_current_value (scalar / fixed shapes) or bind_sampled
+# (sets, dictionaries).  C13's "the consumer is evaluated in that same cycle and sees the new target's current value as
+# modified even though the target itself did not tick" rests on the link being recorded as modified at the retarget time
+# whenever the new target holds a value - independently of when that target last ticked.
+
+TLTU3 = "src/hgraph/types/time_series/ts_input/target_link.cpp"
+MIN_DT_ID = "MIN_DT"
+
+
+class LinkBindKernel(Kernel):
+    tu = TLTU3
+    scope = {"lo": 0, "hi": 3}
+    filter = "TSInputTargetLinkStorage::bind"
+    property_ids = ("C13",)
+
+    def setup(self, I):
+        ctx = I.ctx
+        self.T = z3.Int("modified_time")
+        self.has_value = z3.Bool("new_target_has_a_current_value")
+        self.bind_throws = z3.Bool("bind_impl_rejects_the_output")
+        g = Obj("ghost", "bg")
+        self.g = g
+        for nm in ("binds", "records", "records_before_bind"):
+            ctx.store[(g.oid, nm)] = z3.IntVal(0)
+        for nm in ("bind_t", "record_t"):
+            ctx.store[(g.oid, nm)] = z3.IntVal(-9)
+        for nm in ("bind_sampled", "bind_replay", "bind_args_ok"):
+            ctx.store[(g.oid, nm)] = z3.BoolVal(False)
+        th = Obj("TSInputTargetLinkStorage", "this_link")
+        self.schema = Obj("TSValueTypeMetaData", "schema")
+        out = Obj("TSOutputView", "output")
+        dv = Obj("TSDataView", "output_data")
+        # whatever else the code asks the source about is unconstrained: only has_current_value decides the sampling
+        dv.m_has_current_value = lambda I_2, a, n: self.has_value
+        dv.m_last_modified_time = lambda I_2, a, n: z3.Int("new_target_last_modified_time")
+        dv.m_modified = lambda I_2, a, n: z3.Bool("new_target_modified_now")
+        dv.m_valid = lambda I_2, a, n: z3.Bool("new_target_valid")
+        out.m_data_view = lambda I_2, a, n: dv
+        self.out = out
+        st = Obj("TSInputTargetLinkState", "state_")
+        tgt = Obj("TSOutputHandle", "previous_target")
+        tgt.m_bound = lambda I_2, a, n: z3.Bool("link_was_bound_before")
+        ctx.store[(st.oid, "target")] = tgt
+        ctx.store[(th.oid, "state_")] = st
+        th.m_bound = lambda I_2, a, n: z3.Bool("link_was_bound_before")
+        th.m_target_output = lambda I_2, a, n: tgt
+        self.th = th
+        return th, {"schema": self.schema, "output": out, "modified_time": self.T}
+
+    def method_handler(self, obj, name, node):
+        g = self.g
+        if name == "bind_impl":
+            def bi(I, o, a, n):
+                c = I.ctx
+                v = [c.rv(x) for x in a]
+                c.write(Loc((g.oid, "binds")), c.store[(g.oid, "binds")] + 1)
+                c.write(Loc((g.oid, "bind_args_ok")), z3.BoolVal(v[0] is self.schema and v[1] is self.out))
+                c.write(Loc((g.oid, "bind_t")), v[2])
+                c.write(Loc((g.oid, "bind_sampled")), v[3] if z3.is_expr(v[3]) else z3.BoolVal(bool(v[3])))
+                c.write(Loc((g.oid, "bind_replay")), v[4] if z3.is_expr(v[4]) else z3.BoolVal(bool(v[4])))
+                if c.decide(self.bind_throws, "bind_impl throws"):
+                    I.throw_from_callee("bind_impl", cls="std::invalid_argument")
+                return VOID
+            return bi
+        if name == "record_target_modified":
+            def rec(I, o, a, n):
+                c = I.ctx
+                c.write(Loc((g.oid, "records")), c.store[(g.oid, "records")] + 1)
+                c.write(Loc((g.oid, "record_t")), c.rv(a[0]))
+                c.write(Loc((g.oid, "records_before_bind")), c.store[(g.oid, "records_before_bind")] +
+                        z3.If(c.store[(g.oid, "binds")] == 0, 1, 0))
+                return VOID
+            return rec
+        return Kernel.method_handler(self, obj, name, node)
+
+    def gv(self, ctx, nm):
+        return ctx.store[(self.g.oid, nm)]
+
+
+class BindCurrentValue(LinkBindKernel):
+    name = "target_link.cpp:TSInputTargetLinkStorage::bind_current_value"
+    fn_name = "bind_current_value"
+    title = "bind_current_value: a (re)bind to a target that holds a value is recorded as modified at the bind time, whenever " \
+            "that target last ticked"
+
+    def post(self, I, ret):
+        ctx = I.ctx
+        g = lambda nm: self.gv(ctx, nm)
+        ctx.oblige("ensures.bound-once,unsampled,to-the-given-output", z3.And(
+            self.T != z3.IntVal(0), g("binds") == 1, g("bind_args_ok"), g("bind_t") == z3.IntVal(0),
+            z3.Not(g("bind_sampled")), z3.Not(g("bind_replay"))), kind="post-normal")
+        ctx.oblige("ensures.link-recorded-modified-at-the-bind-time-iff-the-new-target-holds-a-value[C13 on a retarget to a valid target "
+                   "the consumer is evaluated in that same cycle and sees the target's current value as modified: a target that ticked "
+                   "earlier, in the same cycle, or never since]",
+                   z3.And(g("records") == z3.If(self.has_value, 1, 0), g("records_before_bind") == 0,
+                          z3.Implies(self.has_value, g("record_t") == self.T)), kind="post-normal")
+
+    def post_exc(self, I, exc):
+        ctx = I.ctx
+        g = lambda nm: self.gv(ctx, nm)
+        ctx.oblige("raises.invalid_argument:no-evaluation-time(nothing-bound)-or-bind_impl-rejected(nothing-recorded)",
+                   z3.And(z3.BoolVal(exc.cls == "std::invalid_argument"), g("records") == 0,
+                          z3.Or(z3.And(self.T == z3.IntVal(0), g("binds") == 0), z3.And(self.bind_throws, g("binds") == 1))),
+                   kind="post-exceptional")
+
+
+class BindSampled(LinkBindKernel):
+    name = "target_link.cpp:TSInputTargetLinkStorage::bind_sampled"
+    fn_name = "bind_sampled"
+    title = "bind_sampled: a keyed-shape retarget binds sampled at the retarget time"
+
+    def post(self, I, ret):
+        ctx = I.ctx
+        g = lambda nm: self.gv(ctx, nm)
+        ctx.oblige("ensures.bound-once,sampled-at-the-bind-time[C13 for sets and dictionaries the retarget is reported at the retarget "
+                   "cycle as the difference between old and new contents]", z3.And(
+                       self.T != z3.IntVal(0), g("binds") == 1, g("bind_args_ok"), g("bind_t") == self.T, g("bind_sampled"),
+                       z3.Not(g("bind_replay"))), kind="post-normal")
+
+    def post_exc(self, I, exc):
+        ctx = I.ctx
+        g = lambda nm: self.gv(ctx, nm)
+        ctx.oblige("raises.invalid_argument:no-evaluation-time(nothing-bound)-or-bind_impl-rejected",
+                   z3.And(z3.BoolVal(exc.cls == "std::invalid_argument"),
+                          z3.Or(z3.And(self.T == z3.IntVal(0), g("binds") == 0), z3.And(self.bind_throws, g("binds") == 1))),
+                   kind="post-exceptional")
+
+
+class RecordTargetModified(Kernel):
+    tu = TLTU3
+    scope = {"lo": 0, "hi": 3}
+    filter = "TSInputTargetLinkStorage::record_target_modified"
+    name = "target_link.cpp:TSInputTargetLinkStorage::record_target_modified"
+    fn_name = "record_target_modified"
+    property_ids = ("C13", "C04")
+    title = "record_target_modified: a newly recorded link time is passed up to the owning input"
+
+    def setup(self, I):
+        ctx = I.ctx
+        self.T = z3.Int("modified_time")
+        self.newly = z3.Bool("tracking_recorded_a_new_time")
+        g = Obj("ghost", "rg")
+        self.g = g
+        ctx.store[(g.oid, "recorded")] = z3.IntVal(0)
+        ctx.store[(g.oid, "recorded_t")] = z3.IntVal(-9)
+        ctx.store[(g.oid, "parent_told")] = z3.IntVal(0)
+        ctx.store[(g.oid, "parent_t")] = z3.IntVal(-9)
+        th = Obj("TSInputTargetLinkStorage", "this_link")
+        trk = Obj("TSDataTracking", "tracking")
+        parent = Obj("TSParentLink", "parent")
+
+        def rm(I_2, a, n):
+            c = I_2.ctx
+            c.write(Loc((g.oid, "recorded")), c.store[(g.oid, "recorded")] + 1)
+            c.write(Loc((g.oid, "recorded_t")), c.rv(a[0]))
+            return self.newly
+        trk.m_record_modified = rm
+
+        def pn(I_2, a, n):
+            c = I_2.ctx
+            c.write(Loc((g.oid, "parent_told")), c.store[(g.oid, "parent_told")] + 1)
+            c.write(Loc((g.oid, "parent_t")), c.rv(a[0]))
+            return VOID
+        parent.m_notify_child_modified = pn
+        ctx.store[(trk.oid, "parent")] = parent
+        ctx.store[(th.oid, "tracking")] = trk
+        return th, {"modified_time": self.T}
+
+    def post(self, I, ret):
+        ctx = I.ctx
+        g = lambda nm: ctx.store[(self.g.oid, nm)]
+        ctx.oblige("ensures.link-time-recorded-once,parent-told-iff-it-was-new[C13 the consumer below the reference is scheduled in the "
+                   "retarget cycle; C04 one modification time per cycle]",
+                   z3.And(g("recorded") == 1, g("recorded_t") == self.T, g("parent_told") == z3.If(self.newly, 1, 0),
+                          z3.Implies(self.newly, g("parent_t") == self.T)), kind="post-normal")
+
+
+KERNELS += [BindCurrentValue, BindSampled, RecordTargetModified]
